@@ -298,7 +298,7 @@ def run(tier, seed):
     # (ii) CrossHair -- thorough tier only (most conditions need minutes; inconclusive ones are reported as such)
     if tier == 'thorough':
         text, funcs = H.generate(tier)
-        res, twins, d = xh.run_conditions('C08_simplify', funcs, 240, text=text, workers=8)
+        res, twins, d = xh.run_conditions('C08_simplify', funcs, 150, text=text, workers=12)
         try:
             for r, t in zip(res, twins):
                 ctx.verdict('xh-' + r['verdict'])
